@@ -124,6 +124,109 @@ func (c *Ctx) c20Check(s *Sub, sub string, idx []int, finalNL bool, fresh map[in
 	}
 }
 
+// c20Long: sessions in which some lines are made very long by content that
+// cannot change their answer (trailing blanks, a trailing comment, a blank
+// prefix) or whose answer is known by construction (a long string literal,
+// many statements on one line).  The line reader must hand every finite line
+// to the pipeline, whatever its length.
+type c20LongLine struct {
+	J    int    // pool index (pad kinds) — ignored for "longstr" and "many"
+	Kind string // plain, spaces, comment, prefix, strlen, many
+	N    int    // target size in bytes / repetitions
+}
+
+func (l c20LongLine) build() (text, want string, known bool) {
+	base := c20Pool[l.J%len(c20Pool)].text
+	switch l.Kind {
+	case "spaces":
+		return base + strings.Repeat(" ", l.N), "", false
+	case "comment":
+		return base + " //" + strings.Repeat("x", l.N), "", false
+	case "prefix":
+		return strings.Repeat(" ", l.N) + base, "", false
+	case "longstr":
+		return bn.KwPrint + " \"" + strings.Repeat("a", l.N) + "\";", strings.Repeat("a", l.N) + "\n", true
+	case "many":
+		k := l.N / 16
+		if k < 1 {
+			k = 1
+		}
+		return strings.Repeat(bn.KwPrint+" 1; ", k), strings.Repeat("1\n", k), true
+	}
+	return base, "", false
+}
+
+func c20LongSpec(ls []c20LongLine) string {
+	var parts []string
+	for _, l := range ls {
+		parts = append(parts, fmt.Sprintf("%d:%s:%d", l.J, l.Kind, l.N))
+	}
+	return strings.Join(parts, ",")
+}
+
+func c20ParseLong(spec string) []c20LongLine {
+	var out []c20LongLine
+	for _, f := range strings.Split(spec, ",") {
+		g := strings.Split(f, ":")
+		if len(g) != 3 {
+			continue
+		}
+		var l c20LongLine
+		fmt.Sscan(g[0], &l.J)
+		l.Kind = g[1]
+		fmt.Sscan(g[2], &l.N)
+		out = append(out, l)
+	}
+	return out
+}
+
+func (c *Ctx) c20LongCheck(s *Sub, sub string, ls []c20LongLine, fresh map[int]string) {
+	lines := make([]string, len(ls))
+	wants := make([]string, len(ls))
+	nt := false
+	var descParts []string
+	for i, l := range ls {
+		text, want, known := l.build()
+		lines[i] = text
+		if known {
+			wants[i] = want
+		} else {
+			wants[i] = fresh[l.J%len(c20Pool)]
+		}
+		if len(text) > 65536 && i+1 < len(ls) {
+			nt = true
+		}
+		descParts = append(descParts, fmt.Sprintf("%s(%d bytes)", l.Kind, len(text)))
+	}
+	spec := c20LongSpec(ls)
+	bucket := "long-none"
+	if nt {
+		bucket = "long-over-64KiB-then-more"
+	}
+	c.Ev.Case(sub, spec, nt, bucket)
+	parts, status, raw, ok := c.c20Session(lines, true)
+	fail := func(sig, msg, exp string) {
+		s.Violation(Replay{Check: "long-session", Sig: sig, Source: strings.Join(descParts, " | "), Note: msg, Expected: exp, Observed: fmt.Sprintf("status=%d output=%q", status, clip(raw, 600)),
+			Extra: map[string]string{"spec": spec}})
+	}
+	if !ok {
+		fail("hang", "the session did not end within 30 s", "")
+		return
+	}
+	if status != 0 {
+		fail("status", "end of input must end the session with status 0", "0")
+	}
+	if len(parts) != len(lines)+2 || parts[0] != "" {
+		fail("prompts", fmt.Sprintf("expected %d prompts (one per line plus the final one), output splits into %d pieces: some line received no response", len(lines)+1, len(parts)-1), "")
+		return
+	}
+	for i := range lines {
+		if parts[i+1] != wants[i] {
+			fail("response", fmt.Sprintf("line %d (%s, %d bytes) answered %q, expected %q", i+1, ls[i].Kind, len(lines[i]), clip(parts[i+1], 200), clip(wants[i], 200)), clip(wants[i], 200))
+		}
+	}
+}
+
 func TestC20(t *testing.T) {
 	Main(t, "C20", func(c *Ctx) {
 		// responses of each pool line in a fresh session (obtained once per run)
@@ -153,6 +256,10 @@ func TestC20(t *testing.T) {
 				}
 			}
 			c.c20Check(s, "replay", idx, rp.Extra["finalNL"] != "false", fresh, false)
+		})
+		c.OnReplay("long-session", func(s *Sub, rp *Replay) {
+			getFresh(s)
+			c.c20LongCheck(s, "replay", c20ParseLong(rp.Extra["spec"]), fresh)
 		})
 		c.ReplayTier()
 
@@ -214,6 +321,36 @@ func TestC20(t *testing.T) {
 				})
 			}
 			c.Ev.MarkExhaustive(fmt.Sprintf("every session of <= %d lines over the %d-line pool", maxLen, len(c20Pool)))
+		})
+		nl := 40
+		if c.Thorough {
+			nl = 400
+		}
+		c.Rapid("long-lines", nl, func(rt *rapid.T, s *Sub) {
+			getFresh(s)
+			if !freshOK {
+				return
+			}
+			// pool lines whose answer cannot depend on what follows them on the line
+			var padOK []int
+			for j, l := range c20Pool {
+				if l.class != "lexical" {
+					padOK = append(padOK, j)
+				}
+			}
+			sizes := []int{100, 4095, 4096, 4097, 65534, 65535, 65536, 65537, 70000, 131072, 300000, 1 << 20}
+			k := rapid.IntRange(2, 5).Draw(rt, "len")
+			ls := make([]c20LongLine, k)
+			for i := range ls {
+				l := c20LongLine{J: rapid.SampledFrom(padOK).Draw(rt, "line")}
+				l.Kind = rapid.SampledFrom([]string{"plain", "spaces", "comment", "prefix", "longstr", "many"}).Draw(rt, "kind")
+				l.N = rapid.SampledFrom(sizes).Draw(rt, "size") + rapid.IntRange(-2, 2).Draw(rt, "delta")
+				if l.Kind == "many" && l.N > 131072 {
+					l.N = 131072
+				}
+				ls[i] = l
+			}
+			c.c20LongCheck(s, "long-lines", ls, fresh)
 		})
 		n := 300
 		if c.Thorough {
